@@ -19,6 +19,7 @@ import (
 	"net/url"
 	"os"
 	"slices"
+	"strconv"
 	"strings"
 	"testing"
 	"time"
@@ -226,7 +227,8 @@ type worker struct {
 
 // one runs every string entry point on s.
 func (w *worker) one(s string) {
-	w.cur.Set("s:" + s)
+	// the cursor names both operands: a hang (or a fatal error) that depends on the second one must replay
+	w.cur.Set("p:" + strconv.Itoa(len(w.prev)) + ":" + w.prev + s)
 	for i := range w.entries {
 		e := &w.entries[i]
 		w.calls++
@@ -282,6 +284,13 @@ func replayOne(t *testing.T, r *mon.Run, stage string) bool {
 func replayCur(r *mon.Run, stage, cur, prev string) {
 	rc := struct{ Cur, Prev string }{cur, prev}
 	kind, payload, _ := strings.Cut(rc.Cur, ":")
+	if kind == "p" {
+		// "p:<len(prev)>:<prev><s>"
+		n, rest, _ := strings.Cut(payload, ":")
+		if k, err := strconv.Atoi(n); err == nil && k <= len(rest) {
+			kind, rc.Prev, payload = "s", rest[:k], rest[k:]
+		}
+	}
 	switch kind {
 	case "s":
 		w := &worker{r: r, cur: mon.NewCursor(stage, 0), entries: stringEntries(), prev: rc.Prev}
